@@ -415,8 +415,7 @@ Qed.
 
 Lemma queries s : Inv s ->
   (forall e a, q_in s e a = true <-> (e = a \/ reach (graph_of s) e a)) /\
-  (forall a e, q_is_ancestor_of s a e = true <->
-               (reach (graph_of s) e a \/ (find e s = None /\ a = e))) /\
+  (forall a e, q_is_ancestor_of s a e = true <-> (a = e \/ reach (graph_of s) e a)) /\
   (forall u, match q_ancestors s u with
              | Some l => forall a, In a l <-> reach (graph_of s) u a
              | None => find u s = None /\ forall a, ~ reach (graph_of s) u a
@@ -430,8 +429,8 @@ Proof.
       intros [H|H]; [left; exact H|]. exfalso. eapply absent_no_reach; eassumption.
   - intros a e. unfold q_is_ancestor_of. destruct (find e s) as [n|] eqn:F.
     + pose proof (find_some_in _ _ _ F) as Hin. destruct (HI e n Hin) as [Hr _].
-      rewrite is_desc_In, Hr. split; [auto|]. intros [H|[H _]]; [exact H | discriminate].
-    + rewrite N.eqb_eq. split; [auto|]. intros [H|[_ H]]; [|exact H].
+      rewrite orb_true_iff, N.eqb_eq, is_desc_In, Hr. tauto.
+    + rewrite N.eqb_eq. split; [auto|]. intros [H|H]; [exact H|].
       exfalso. eapply absent_no_reach; eassumption.
   - intros u. unfold q_ancestors. destruct (find u s) as [n|] eqn:F.
     + apply find_some_in in F. destruct (HI u n F) as [Hr _]. exact Hr.
